@@ -79,6 +79,10 @@ def check(ctx: Ctx) -> None:
     r10_listing_exhaustive(ctx, "C14.R9")
     from .c20 import r12_stream_faithful
     r12_stream_faithful(ctx, "C14.R10")
+    # every read API reads the version recovery resolves to: with the pointer lost, a textual 'latest' (v9 over v12) answers
+    # with a SUBSET of the committed rows instead of raising or answering in full
+    from .c10 import r11 as c10_r11_
+    c10_r11_(ctx, "C14.R15")
 
 
 ROW_SOURCE_OWNERS: Dict[str, str] = {
